@@ -105,6 +105,31 @@ class SimThread:
         return self.state in (RUNNABLE, BLOCKED)
 
 
+_HOT_RE = None
+_hot_cache = {}
+
+
+def hot_lines(files):
+    """(file, line) pairs whose source text reads or writes state shared between threads."""
+    import re
+    global _HOT_RE
+    if _HOT_RE is None:
+        _HOT_RE = re.compile(r"self\.(clear|resendfrom|lineno|printing|online|sentlines|queueindex|priqueue|"
+                             r"paused|mainqueue|stop_read_thread|stop_send_thread|print_thread|send_thread|"
+                             r"_ack_event|_online_event|_device_error|_read_buffer|_current_params|"
+                             r"_reported_params|_is_connected|writefailures)\b")
+    out = set()
+    for f in files:
+        if f not in _hot_cache:
+            try:
+                with open(f) as fh:
+                    _hot_cache[f] = {(f, i + 1) for i, l in enumerate(fh) if _HOT_RE.search(l)}
+            except OSError:
+                _hot_cache[f] = set()
+        out |= _hot_cache[f]
+    return out
+
+
 class Kernel:
     """One kernel per simulated run."""
 
@@ -118,6 +143,10 @@ class Kernel:
         self.p_stall = float(self.sched.get("p_stall", 0.0))
         self.stall_max = float(self.sched.get("stall_max", 0.15))
         self.victim = self.sched.get("victim")  # thread name prefix (starve policy)
+        self.hot = None
+        self.p_hot = float(self.sched.get("p_hot", 0.5))
+        if self.policy == "hot":
+            self.hot = hot_lines(trace_files) if trace_files else set()
         self.pct_points = set()
         if self.policy == "prio":
             est = int(self.sched.get("est_steps", 4000))
@@ -456,6 +485,11 @@ class Kernel:
                     dur = round(self.rng.uniform(0.0, self.stall_max), 6)
                     self.decisions.append([self.sp, "z", dur])
                     self._stall(dur)
+            elif self.hot is not None:
+                # race-directed: pre-empt/stall mostly at statements that touch shared state
+                ph = self.p_hot if (frame.f_code.co_filename, frame.f_lineno) in self.hot else self.p_line
+                if self.rng.random() < ph:
+                    self._random_switch(self.me())
             elif self.rng.random() < self.p_line:
                 self._random_switch(self.me())
         return self._ltrace
